@@ -9,8 +9,8 @@ Observation (real code only): parse_model of the base script, of the transformed
 de-normalised equation of every endogenous symbol; ast.dump of every generated code line.
 K  = extracted parser model (parse_model_nocheck, coq/Extract/Graph driver) vs fsic.parse_model(check_syntax=False) on the base
      script, the transformed script and every statement: every field of every Symbol / exception class; and the domain of the
-     fixed-point theorem: every real normalised equation, re-tokenised, passes the extracted Denorm.dq_ok, GNorm.neq_text /
-     Denorm.neq_code reproduce equation and code, and Denorm.denorm_text is the text the oracle feeds back.
+     fixed-point theorem: every real normalised equation, read back by the extracted GTokenise.tokenise, passes the extracted
+     Denorm.dq_ok, Denorm.neq_code reproduces the code, and Denorm.denorm_text is the text the oracle feeds back.
 O  = the metamorphic relations of the property on the real observations (see `oracle`)."""
 import json
 import re
@@ -35,12 +35,13 @@ RULE = ('programs of 1-4 equations from random syntax trees (as C20), each rende
         'statements must be rejected with ParserError (fix 85765d5).  Plus scripts of '
         'the parser_common generator and their mutations (independence + fixed point).  Non-trivial = base accepted with >= 1 equation '
         'and the transformed text differs from the base; distinct by hash of the case.')
-TRUSTED = ['extraction of the parser model to OCaml (ExtrOcamlBasic + ExtrOcamlString only) and coq/Extract/Graph/driver.ml',
+TRUSTED = ['extraction of the parser model, GTokenise.tokenise and Denorm.dq_ok / denorm_text / neq_code to OCaml (ExtrOcamlBasic + ExtrOcamlString only) and coq/Extract/Graph/driver.ml',
            'harness/parser_common.py encoders', "CPython's ast.parse / ast.dump as the meaning of a generated code line"]
 ASSUMPTIONS = ['input strings are Latin-1',
                'statement-level theorems (fixed point; blanks inside { } < > [ ]; "+" of a lead; explicit [0]; runs of blanks and tabs; '
                'continuation lines) speak about statements NAME[k] = rhs given as token lists with a layout, under the decidable conditions '
-               'Denorm.dq_ok / dq_ok_ws; that the equations fsic produces are of this form is checked per case by K_fixed_domain, not proved',
+               'Denorm.dq_ok / dq_ok_ws; that the equations fsic produces are of this form is checked per case by K_fixed_domain (the model reads '
+               'the real equation back with its own GTokenise.tokenise and evaluates dq_ok on it), not proved',
                'script-level theorems (comments, blank lines, statement independence, permutation) are about parse_model itself, for all scripts '
                'whose blocks end between statements (decidable premises, instances in Props/C14.v)',
                '"meaning of the generated code" = ast.dump(ast.parse(code)) (CPython)',
@@ -71,7 +72,7 @@ class Lay:
         out = base
         if self.on('ws'):
             if base:
-                out = self.rng.choice([' ', '  ', '\t', ' \t ', '   '])
+                out = self.rng.choice([' ', '  ', '\t', ' \t ', '   ', '\xa0', '\x1f '])      # every \s of re that is no line boundary of str.splitlines() counts as a blank
             else:
                 out = self.rng.choice(['', ' ', '  '])
                 if out:
@@ -79,7 +80,8 @@ class Lay:
         if self.depth > 0 and self.on('cont', 0.2):
             if not out:
                 self.flags.add('gap-opened')
-            out = out + '\n' + self.rng.choice(['    ', '\t', ' '])
+            # str.splitlines() also breaks at \r\n, \r, form feed, \x1c-\x1e, \x85: the lines are re-joined with \n
+            out = out + self.rng.choice(['\n', '\n', '\n', '\r\n', '\x0c', '\r', '\x85', '\x1d']) + self.rng.choice(['    ', '\t', ' '])
         return out
 
     def free(self):
@@ -97,6 +99,8 @@ class Lay:
             if idx == 0 and not self.on('zero', 0.5):
                 return ''
             body = ('+%d' % idx) if (idx > 0 and self.on('sign', 0.6)) else '%d' % idx
+            if idx == 0 and self.is_var and rng.random() < 0.3:
+                body = rng.choice(['+0', '-0', '00', '0_0'])         # other spellings int() reads as 0
         else:
             body = idx
         if self.on('inner', 0.5):
@@ -218,6 +222,9 @@ FIXED = [
     {'k': 'fence', 'stmts': ['```', 'Y = X']},
     {'k': 'fence', 'stmts': ['Y = X', '```\nfoo = 1']},
     {'k': 's', 's': 'Y[=1]'},
+    {'k': 'meta', 'stmts': ['Y = X[%s]' % ('0' * 4299 + '1')], 'var': 'Y = X[ +%s ]' % ('0' * 4299 + '1'), 'strict': True, 'feats': ['inner', 'sign'], 'flags': [], 'perm': None, 'skipfix': []},
+    {'k': 'meta', 'stmts': ['Y = X[%s]' % ('0' * 4300 + '1')], 'var': 'Y = X[ +%s ]' % ('0' * 4300 + '1'), 'strict': True, 'feats': ['inner', 'sign'], 'flags': [], 'perm': None, 'skipfix': []},
+    {'k': 'meta', 'stmts': ['Y = (X + Z)'], 'var': 'Y = (X +\x0c  Z\r\n)', 'strict': True, 'feats': ['cont'], 'flags': [], 'perm': None, 'skipfix': []},
     {'k': 'meta', 'stmts': ['C = {alpha_1} * YD + {alpha_2} * H[-1]'], 'var': 'C = ({ alpha_1 }[0] * YD[ 0 ] +\n     {alpha_2}*H[ -1 ])  # consumption',
      'strict': False, 'feats': ['ws', 'inner', 'zero', 'cont', 'comment'], 'flags': [], 'perm': None, 'skipfix': []},
     {'k': 'meta', 'stmts': ['Y = X + Z', 'W = Y[-1]'], 'var': '# model\n\nW = Y[-1]\n\n\nY = X + Z\n', 'strict': True, 'feats': ['blank'], 'flags': [], 'perm': [1, 0], 'skipfix': []},
@@ -330,7 +337,7 @@ def impl(case):
                 continue
             d = denorm(eq)
             r = _parse(d)
-            ent = {'name': name, 'fed': d, 'eq': eq, 'code': code, 'wit': G._witness(eq)}
+            ent = {'name': name, 'fed': d, 'eq': eq, 'code': code}
             if 'exc' in r:
                 ent['exc'] = r['exc']
             else:
@@ -382,9 +389,9 @@ def correspond(cases, obs, tag, tier):
             continue
         for ent in o.get('fix', []):
             _K_STATS['equations'] += 1
-            if ent.get('wit') is None or ent['code'] is None:
+            if ent['code'] is None:
                 continue
-            reqs.append('D %s %s %s' % (pc.hx(ent['eq']), pc.hx(ent['code']), ent['wit']))
+            reqs.append('DZ %s %s' % (pc.hx(ent['eq']), pc.hx(ent['code'])))      # token list read by the model's own GTokenise.tokenise
             where.append((i, ent))
     ans, errs = G.run_driver(reqs)
     if errs:
@@ -395,10 +402,10 @@ def correspond(cases, obs, tag, tier):
             if pc.unhx(a[2:]) != ent['fed'] and i not in bad:
                 bad.append(i)
                 _K_DETAIL[lib.jhash(cases[i])] = {'denorm_text': pc.unhx(a[2:]), 'fed by the oracle': ent['fed']}
-        elif a in ('0t', '0c'):
+        elif a == '0c':
             if i not in bad:
                 bad.append(i)
-                _K_DETAIL[lib.jhash(cases[i])] = {'neq_text / neq_code differ (%s) for' % a: ent['eq']}
+                _K_DETAIL[lib.jhash(cases[i])] = {'neq_code differs for': ent['eq']}
         elif cases[i]['k'] == 'meta' and not cases[i]['flags']:
             if i not in bad:                      # an equation of the generated grammar outside the theorem's conditions
                 bad.append(i)
